@@ -103,7 +103,7 @@ func (p *tlsConfigPool) LoadTLSConfig(config TLSConfig) (*tls.Config, error) {
 	case config.GetTrustedCertificateAuthorityFile() != "":
 		var err error
 		ca, err = p.caWatcher.WatchFile(
-			NewFileReader(config.GetTrustedCertificateAuthorityFile()),
+			newTLSCAFileReader(id, config.GetTrustedCertificateAuthorityFile()),
 			config.GetTrustedCertificateAuthorityRefreshInterval().AsDuration(),
 			func(data []byte) { p.updateCA(id, data) },
 		)
@@ -173,6 +173,23 @@ func (p *tlsConfigPool) updateCA(id string, caPem []byte) {
 	p.configs[id] = tlsConfig
 	p.mu.Unlock()
 }
+
+// tlsCAFileReader reads the trusted CA file on behalf of one TLS config of the pool.
+// The file watcher keeps one watcher per reader ID and a new watcher supersedes the previous one. Different TLS
+// settings may use the same CA file, so the ID includes the id of the TLS config: otherwise the watcher of the
+// last loaded config would stop the others, and those would never see an update of the file.
+type tlsCAFileReader struct {
+	*FileReader
+	configID string
+}
+
+// newTLSCAFileReader creates a reader of the given CA file for the TLS config with the given id.
+func newTLSCAFileReader(configID, filePath string) tlsCAFileReader {
+	return tlsCAFileReader{FileReader: NewFileReader(filePath), configID: configID}
+}
+
+// ID returns the identifier of the file for the TLS config.
+func (r tlsCAFileReader) ID() string { return r.configID + ":" + r.FileReader.ID() }
 
 // tlsConfigEncoder is the internal representation of a TLSConfig.
 // It handles some useful methods for the TLSConfig.
